@@ -155,17 +155,24 @@ def run(ctx):
         engines = {}
         gain = [0.6]
 
+        # character tables: one code point per symbol, and tables with a digraph, a letter + combining mark and an empty-string symbol
+        charset = [None]
+        MULTI = ['a', 'ch', 'e\u0301', '', 'b', 'sch', 'c', 'd', 'f', 'g', ' ']
+
         def engine(bs):
             # two stub networks: ordinary output range, and a wide one (frame maxima from 6 on padding to > 100 on content:
             # float32 softmax must be stabilised per frame)
-            if (bs, gain[0]) not in engines:
-                d = os.path.join(tmp, 'bs%d_g%s' % (bs, gain[0]))
+            key = (bs, gain[0], charset[0] is not None)
+            if key not in engines:
+                d = os.path.join(tmp, 'bs%d_g%s_%s' % (bs, gain[0], 'multi' if charset[0] else 'single'))
                 os.makedirs(d, exist_ok=True)
-                engines[(bs, gain[0])] = stubs.make_engine(d, batch_size=bs, gain=gain[0])[0]
-            return engines[(bs, gain[0])]
+                engines[key] = stubs.make_engine(d, batch_size=bs, gain=gain[0], chars=charset[0])[0]
+            return engines[key]
         m = 250 if ctx.quick() else 1200
         for _ in range(m):
             gain[0] = rng.choice([0.6, 0.6, 5])
+            charset[0] = MULTI if rng.random() < 0.3 else None
+            ctx.count('charset:' + ('multi-codepoint' if charset[0] else 'single'))
             alone = engine(1)
             ctx.count('stub_gain:%s' % gain[0])
             nlines = rng.randrange(0, 8)
@@ -182,7 +189,7 @@ def run(ctx):
             mode = rng.choice(['dense', 'sparse', 'tight', 'nologits'])
             perm = list(range(nlines))
             rng.shuffle(perm)
-            inp = dict(widths=ws, batch_size=bs, mode=mode, permutation=perm, stub_gain=gain[0])
+            inp = dict(widths=ws, batch_size=bs, mode=mode, permutation=perm, stub_gain=gain[0], charset=charset[0])
             ctx.evaluations += 1
             kw = dict(sparse_logits=(mode == 'sparse'), tight_crop_logits=(mode == 'tight'), no_logits=(mode == 'nologits'))
             try:
@@ -259,6 +266,7 @@ def run(ctx):
         from pero_ocr.core.layout import PageLayout, RegionLayout, TextLine
         for _ in range(60 if ctx.quick() else 400):
             gain[0] = 0.6
+            charset[0] = MULTI if rng.random() < 0.3 else None
             bs = rng.randrange(1, 9)
             nlines = rng.randrange(1, 8)
             ws = [rng.choice([0, rng.randrange(1, 40), rng.randrange(40, 300), rng.randrange(40, 300)]) for _ in range(nlines)]
